@@ -110,7 +110,8 @@ def explicit(tier, seed):  # noqa: C901
                           {"kind": "FAILED", "etype": "CheckpointError", "why": "checkpoint-%s" % (err.get("status") or err.get("cls"))}
                     yield case("ckpt-%s-%d" % (sname, k), body, exp,
                                faults=[{"match": {"op": "checkpoint", "n": k}, "err": err, "when": when, "delay_ms": 30 if (sname in ("par", "seq") and (k + len(when)) % 2) else 0}],
-                               opts={"hang_s": 3.0}, **extra)
+                               opts={"hang_s": 3.0, **({"perturb": {"p": 0.0, "seed": i, "files": ["threading.py", "state.py", "executor.py"],
+                                                                   "after_sync": {"p": 0.8, "sleep": 0.003}}} if (k + len(sname)) % 3 == 0 else {})}, **extra)
     # a page fetch (GetDurableExecutionState) fails: while loading the paginated history, or while following the pages of a checkpoint response
     for sname, body in shapes.items():
         for err in (ERRS[0], ERRS[5], ERRS[8]):
@@ -147,7 +148,7 @@ SPEC = Spec(
     "ExecutionError, ValidationError, CallbackError, SerDesError, CallableRuntimeError, InvocationError, StepInterruptedError, BaseExceptions "
     "in a branch) x result kinds (JSON, None, NaN, non-serializable, sizes around the 6 MB response limit in ASCII, CJK, accented, emoji and quote-heavy text, oversized errors) x malformed "
     "events and input payloads x checkpoint error category (5xx, 429, 4xx, Invalid Checkpoint Token, non-botocore) at every API call "
-    "position of seven program shapes (the failing request answered at once or kept in flight 30 ms while other records queue up behind it) (incl. child contexts whose body raises, so that the failing call is a context's FAIL record), request-lost and response-lost, incl. the large-result checkpoint; plus random programs. Oracle: "
+    "position of seven program shapes (the failing request answered at once or kept in flight 30 ms while other records queue up behind it; a third of them under after-sync perturbation) (incl. child contexts whose body raises, so that the failing call is a context's FAIL record), request-lost and response-lost, incl. the large-result checkpoint; plus random programs. Oracle: "
     "outcome shape (Status + Result-JSON | Error object | neither, or an EXECUTION record when the payload is empty), the outcome as encoded by the runtime fits the Lambda response limit, raise only for "
     "InvocationError-family / retriable checkpoint errors / malformed payloads, expected classification per scenario, no dex-handler "
     "thread alive afterwards, and the invocation ends (logical hang rule). A class = (scenario label, outcome kind).",
